@@ -279,6 +279,10 @@ func Random(seed int64, idx int, opt RandOpt) *Entry {
 			if r.Intn(5) != 0 {
 				fl.Comment, fl.HasComment = randComment(r, fl.Name), true
 			}
+			if r.Intn(5) == 0 {
+				// a trailing comment (with or without a leading one) never is the description
+				Trail(" trailing remark on " + fl.Name + "\n")(fl)
+			}
 		}
 	}
 	// configuration
@@ -484,6 +488,11 @@ func OptionVariant(e *Entry, seed int64, k int) *Entry {
 		}
 		c.NameOverrides[k] = v
 	}
+	for _, p := range e.Pinned {
+		if !containsStr(c.ExcludeFields, p) {
+			c.ExcludeFields = append(c.ExcludeFields, p)
+		}
+	}
 	for _, m := range e.File.Messages {
 		for _, fl := range m.Fields {
 			switch r.Intn(4) {
@@ -567,4 +576,13 @@ func Reachable(f *ir.File, root string) []*ir.Message {
 	}
 	walk(root, false)
 	return out
+}
+
+func containsStr(l []string, s string) bool {
+	for _, x := range l {
+		if x == s {
+			return true
+		}
+	}
+	return false
 }
